@@ -132,7 +132,8 @@ def exercise(ctx):
             path_ = f"/{f['package']}.{svc['name']}/{m['name']}"
             # 1. surface: parameters offered in declared order
             offered = {}
-            for kind in ("sync", "async"):
+            kinds = ("sync",) if ctx.options.get("ads") else ("sync", "async")      # the ads template set has no asyncio client
+            for kind in kinds:
                 client = rig.client(f, svc, kind)
                 meth = getattr(client, client_method_name(m["name"]), None)
                 if meth is None:
@@ -158,13 +159,13 @@ def exercise(ctx):
                     if flat != want_bare:
                         continue
                     # only the known bare-name shape differs: the equivalence is still judged, under the names offered
-                    if kind == "async":
+                    if kind == kinds[-1]:
                         params = [(pth, fd, fd.name if bare_leaf(ctx, fd) else p) for pth, fd, p in params]
                 bad = [p for p in flat if sig.parameters[p].kind is not inspect.Parameter.KEYWORD_ONLY]
                 if bad:
                     ctx.violation("param-kind", f"{path_} ({kind}): parameters {bad} are not keyword-only")
                 offered[kind] = flat
-            if set(offered) != {"sync", "async"}:
+            if set(offered) != set(kinds):
                 continue
             usable = [(p, fd, name) for p, fd, name in params if name in offered["sync"]]
             def _marshal_trouble(fd):
@@ -192,7 +193,7 @@ def exercise(ctx):
                         continue
                     claims.update(c)
                     chosen.append((usable[i], draw(leaf_strategy(ctx, usable[i][1], classes))))
-                kind = draw(st.sampled_from(["sync", "async"]))
+                kind = draw(st.sampled_from(list(kinds)))
                 extra = draw(st.integers(0, len(usable) - 1))
                 extra_val = draw(leaf_strategy(ctx, usable[extra][1], classes))
                 return chosen, kind, (usable[extra], extra_val)
